@@ -34,7 +34,7 @@ func sameBatch(e vEvent, s sentBatch) bool {
 func runC08(tier string, _ []string) int {
 	c := vlib.NewCtx("C08", tier, "exploration")
 	vlib.SetPortBlock(8)
-	c.SetRule("per case a fresh instance, a real client.Manager and 3-6 instrumented clients (one with children, one nested under a group, one mirrored under two parents); then 30-200 acknowledged batches from one connection (so acceptance order = send order) with origins from {'', own id, sibling id, child id, 'user-x'} to the clients' nodes, their children, siblings, unrelated nodes and the groups above, node points and edge points, non-decreasing timestamps per identity; a marker point with a foreign origin closes each client's stream. Oracle per client: delivered callbacks == the sent batches addressed to its node or a descendant, in order, where foreign-origin batches MUST appear, self-authored ones ('' on the own node, origin == own id) MUST NOT, and '' on a descendant MAY; fold check: constructed config + delivered (+ self-authored) points via MergePoints/MergeEdgePoints == Decode of what GetNodes returns. distinct = (target kind, origin kind, node|edge, class) In every second case a node outside every client subtree is then attached below a client node while a second connection writes to it back to back; after the manager has settled, a foreign point written to the newcomer must reach that client (marker barrier on the client node).")
+	c.SetRule("per case a fresh instance, a real client.Manager and 3-6 instrumented clients (one with children, one nested under a group, one mirrored under two parents); then 30-200 acknowledged batches from one connection (so acceptance order = send order) with origins from {'', own id, sibling id, child id, 'user-x'} to the clients' nodes, their children, siblings, unrelated nodes and the groups above, node points and edge points, non-decreasing timestamps per identity; a marker point with a foreign origin closes each client's stream. Oracle per client: delivered callbacks == the sent batches addressed to its node or a descendant, in order, where foreign-origin batches MUST appear, self-authored ones ('' on the own node, origin == own id) MUST NOT, and '' on a descendant MAY; fold check: constructed config + delivered (+ self-authored) points via MergePoints/MergeEdgePoints == Decode of what GetNodes returns. distinct = (target kind, origin kind, node|edge, class) In every second case a node outside every client subtree is then attached below a client node while a second connection writes to it back to back; after the manager has settled, a foreign point written to the newcomer must reach that client (marker barrier on the client node). In every sixteenth case a client is kept busy (its Points call does not return) while 1500 foreign changes to its node are accepted; afterwards it must be told of all of them in order.")
 	c.Assume("structure is fixed during the write phase (restarts belong to C07); tombstoned array elements are not generated (Decode documents that holes may remain)")
 	nRuns := c.N(40, 400)
 	wd := c.NewWatchdog()
@@ -493,6 +493,77 @@ func runC08(tier string, _ []string) int {
 			}
 			c.Count("checked_after_concurrent_attach", 1)
 			c.Count("writes_during_attach", int64(wrote))
+		}
+		// ---- a client that is busy while a burst of foreign changes is accepted: it must be told of all of
+		// them, in order, once it takes points again
+		if i%16 == 1 {
+			cnode := vnodes[len(vnodes)-1]
+			var clientNo int64 = -1
+			for key, cl := range runningClients(v.mon.snapshot()) {
+				if strings.HasSuffix(key, "/"+cnode) {
+					clientNo = cl[0].Client
+				}
+			}
+			if clientNo >= 0 {
+				release := v.mon.hold(clientNo)
+				const nBurst = 1500
+				base := d.now().UnixNano() + int64(2*time.Hour)
+				var werr error
+				for q := 0; q < nBurst && werr == nil; q++ {
+					e, err := vlib.SendAck(v.nc, vlib.NodeSubj(cnode), data.Points{{Type: "burst", Time: time.Unix(0, base+int64(q)), Value: float64(q), Origin: "user-x"}})
+					if err != nil || e != "" {
+						werr = fmt.Errorf("burst write %d: %v %s", q, err, e)
+					}
+				}
+				release()
+				if werr != nil {
+					c.Violate("store:legal-write-refused", werr.Error(), v.wit(nil))
+					return
+				}
+				end := data.Points{{Type: "vmarker", Time: time.Unix(0, base+int64(time.Hour)), Text: "end3-" + cnode, Origin: "marker-author"}}
+				if e, err := vlib.SendAck(v.nc, vlib.NodeSubj(cnode), end); err != nil || e != "" {
+					c.Violate("store:legal-write-refused", fmt.Sprint(err, e), v.wit(nil))
+					return
+				}
+				done := wd.Watch("client-delivery:marker-not-delivered", v.wit(map[string]any{"phase": "burst"}), 90*time.Second, true)
+				next, barrier := 0, false
+				bad := ""
+				for !barrier && bad == "" {
+					next = 0
+					for _, e := range v.mon.snapshot() {
+						if e.Client != clientNo || e.Kind != "points" {
+							continue
+						}
+						for _, p := range e.Points {
+							if p.Type == "burst" {
+								if int(p.Value) != next {
+									bad = fmt.Sprintf("the busy client of %s was told of burst write %d where write %d was due (%d accepted in all)", cnode, int(p.Value), next, nBurst)
+								}
+								next++
+							}
+							if p.Type == "vmarker" && p.Text == end[0].Text {
+								barrier = true
+							}
+						}
+						if bad != "" {
+							break
+						}
+					}
+					if !barrier && bad == "" {
+						time.Sleep(5 * time.Millisecond)
+					}
+				}
+				done()
+				if bad == "" && next != nBurst {
+					bad = fmt.Sprintf("the busy client of %s was told of %d of %d accepted foreign writes before the closing marker", cnode, next, nBurst)
+				}
+				c.Eval(nBurst)
+				if bad != "" {
+					c.Violate("client-delivery:foreign-change-lost-or-reordered:burst-while-busy", bad, map[string]any{"case": i, "seed": c.Seed, "client_node": cnode})
+					return
+				}
+				c.Count("bursts_delivered_to_a_busy_client", 1)
+			}
 		}
 		if i < 2 {
 			c.Sample(map[string]any{"clients": len(running), "batches": len(sent)})
